@@ -17,11 +17,14 @@ func main() {
 	fs := flag.NewFlagSet(os.Args[1], flag.ExitOnError)
 	in := fs.String("in", "", "scenario file (ndjson)")
 	out := fs.String("out", "", "trace file (ndjson)")
+	names := fs.Int("names", 2, "number of names (cache replay)")
 	_ = fs.Parse(os.Args[2:])
 	var err error
 	switch os.Args[1] {
 	case "engine":
 		err = cmdEngine(*in, *out)
+	case "cache":
+		err = cmdCache(*in, *out, *names)
 	default:
 		err = fmt.Errorf("unknown subcommand %q", os.Args[1])
 	}
